@@ -3,6 +3,7 @@ package c19
 import (
 	"encoding/json"
 	"fmt"
+	"os"
 	"sort"
 	"strconv"
 	"strings"
@@ -38,6 +39,14 @@ type op struct {
 	DB      int      `json:"db"`
 	Cmd     []string `json:"cmd,omitempty"`
 	Advance int64    `json:"advance,omitempty"`
+	Restart bool     `json:"restart,omitempty"` // clean shutdown and restart from the append-only log
+}
+
+// config of one case
+type caseConf struct {
+	Persist bool   `json:"persist"`
+	Policy  string `json:"policy"`
+	Limit   uint64 `json:"limit"`
 }
 
 var vals = []string{"v", "w", "abc", "hello world", "x y", "héllo", "Z", "", "longer value with spaces ............"}
@@ -170,13 +179,29 @@ func hasEmptyCollection(d dataset) bool {
 }
 
 type replayFile struct {
-	Property string `json:"property"`
-	Ops      []op   `json:"ops"`
-	Failure  string `json:"failure"`
+	Property string   `json:"property"`
+	Conf     caseConf `json:"conf"`
+	Ops      []op     `json:"ops"`
+	Failure  string   `json:"failure"`
 }
 
-func runCase(t *rapid.T, replay []op) {
-	s, err := sut.New(sut.Opts{})
+func runCase(t *rapid.T, replay []op, rconf *caseConf) {
+	var conf caseConf
+	if rconf != nil {
+		conf = *rconf
+	} else if replay == nil {
+		conf.Persist = rapid.IntRange(0, 2).Draw(t, "persist") == 0
+		if rapid.IntRange(0, 2).Draw(t, "evict") == 0 {
+			conf.Policy = rapid.SampledFrom([]string{"allkeys-lfu", "allkeys-lru", "allkeys-random", "volatile-lfu", "volatile-lru", "volatile-random", "noeviction"}).Draw(t, "policy")
+			conf.Limit = rapid.SampledFrom([]uint64{400, 900, 2000, 5000}).Draw(t, "limit")
+		}
+	}
+	opts := sut.Opts{Policy: conf.Policy, MaxMemory: conf.Limit}
+	if conf.Persist {
+		opts.DataDir, opts.AOFSync = sut.NewScratchDir("c19"), "no"
+		defer os.RemoveAll(opts.DataDir)
+	}
+	s, err := sut.New(opts)
 	if err != nil {
 		t.Fatalf("HARNESS-ERROR: %v", err)
 	}
@@ -185,6 +210,24 @@ func runCase(t *rapid.T, replay []op) {
 	nontrivial := false
 	apply := func(o op) {
 		trace = append(trace, o)
+		if o.Restart {
+			if !conf.Persist {
+				return
+			}
+			s.WaitAsync()
+			clk := s.Clock
+			s.Close()
+			o2 := opts
+			o2.RestoreAOF, o2.Clock = true, clk
+			ns, err := sut.New(o2)
+			if err != nil {
+				t.Fatalf("HARNESS-ERROR: restart: %v", err)
+			}
+			s = ns
+			nontrivial = true
+			rec.Class("restart from the append-only log")
+			return
+		}
 		if o.Advance != 0 {
 			s.Clock.Advance(msDur(o.Advance))
 			nontrivial = true
@@ -205,6 +248,10 @@ func runCase(t *rapid.T, replay []op) {
 	} else {
 		n := rapid.IntRange(3, 40).Draw(t, "n")
 		for i := 0; i < n; i++ {
+			if conf.Persist && rapid.IntRange(0, 9).Draw(t, "restart") == 0 {
+				apply(op{Restart: true})
+				continue
+			}
 			apply(genOp(t, s))
 		}
 	}
@@ -228,7 +275,28 @@ func runCase(t *rapid.T, replay []op) {
 			}
 		}
 	}
+	s.WaitAsync()
 	got := s.MemoryUsed()
+	if conf.Limit != 0 {
+		// reading the dataset is an access: under an eviction policy it can itself evict. Observe until the
+		// dataset and the figure are stable.
+		for round := 0; round < 6; round++ {
+			d2 := readDataset(s)
+			s.WaitAsync()
+			got2 := s.MemoryUsed()
+			a, _ := json.Marshal(d)
+			b, _ := json.Marshal(d2)
+			stable := string(a) == string(b) && got2 == got
+			d, got = d2, got2
+			if stable {
+				break
+			}
+		}
+		if hasEmptyCollection(d) {
+			rec.Class("skipped: empty collection lingering under an eviction policy")
+			return
+		}
+	}
 	fresh, err := sut.New(sut.Opts{Clock: s.Clock})
 	if err != nil {
 		t.Fatalf("HARNESS-ERROR: %v", err)
@@ -243,15 +311,18 @@ func runCase(t *rapid.T, replay []op) {
 	}
 	if got != want {
 		js, _ := json.Marshal(d)
-		msg := fmt.Sprintf("MemoryUsed after the history is %d, a fresh server holding the same dataset reports %d; dataset: %s", got, want, trunc(string(js), 600))
-		b, _ := json.MarshalIndent(replayFile{Property: "C19", Ops: trace, Failure: msg}, "", " ")
+		msg := fmt.Sprintf("MemoryUsed after the history is %d, a fresh server holding the same dataset reports %d; dataset: %s; per key (figure released by DEL on the history server / on the fresh server): %s", got, want, trunc(string(js), 600), perKey(s, fresh, d))
+		b, _ := json.MarshalIndent(replayFile{Property: "C19", Conf: conf, Ops: trace, Failure: msg}, "", " ")
 		p := engine.WriteRaw("C19", "random", b)
 		t.Fatalf("violation (replay %s): %s", p, msg)
 	}
 	var canon strings.Builder
 	sample := []string{}
 	for _, o := range trace {
-		if o.Advance != 0 {
+		if o.Restart {
+			canon.WriteString("@restart\x1e")
+			sample = append(sample, "restart (AOF restore)")
+		} else if o.Advance != 0 {
 			canon.WriteString(fmt.Sprintf("@adv%d\x1e", o.Advance))
 			sample = append(sample, fmt.Sprintf("advance %dms", o.Advance))
 		} else {
@@ -260,7 +331,33 @@ func runCase(t *rapid.T, replay []op) {
 		}
 	}
 	sample = append(sample, fmt.Sprintf("=> MemoryUsed %d == fresh load %d (%d keys)", got, want, len(d)))
-	rec.Case(canon.String(), nontrivial, sample)
+	rec.Case(fmt.Sprintf("%v|%s|%d|", conf.Persist, conf.Policy, conf.Limit)+canon.String(), nontrivial, sample)
+}
+
+// perKey deletes the keys one by one on both servers and reports how much of the figure each one released.
+func perKey(a, b *sut.Server, d dataset) string {
+	names := make([]string, 0, len(d))
+	for n := range d {
+		names = append(names, n)
+	}
+	sort.Strings(names)
+	var out []string
+	for _, n := range names {
+		parts := strings.SplitN(n, "/", 2)
+		db, _ := strconv.Atoi(parts[0])
+		var delta [2]int64
+		for i, srv := range []*sut.Server{a, b} {
+			_ = srv.Select(db)
+			srv.WaitAsync()
+			before := srv.MemoryUsed()
+			srv.Do("DEL", parts[1])
+			srv.WaitAsync()
+			delta[i] = before - srv.MemoryUsed()
+		}
+		out = append(out, fmt.Sprintf("%s %d/%d", n, delta[0], delta[1]))
+	}
+	a.WaitAsync()
+	return strings.Join(out, ", ") + fmt.Sprintf("; left after deleting them: %d/%d", a.MemoryUsed(), b.MemoryUsed())
 }
 
 func trunc(s string, n int) string {
@@ -275,7 +372,7 @@ func TestRandom(t *testing.T) {
 		t.Skip()
 	}
 	defer common.Verdict(t, rec, "random")
-	rapid.Check(t, func(t *rapid.T) { runCase(t, nil) })
+	rapid.Check(t, func(t *rapid.T) { runCase(t, nil, nil) })
 }
 
 func TestReplay(t *testing.T) {
@@ -292,5 +389,5 @@ func TestReplay(t *testing.T) {
 			fmt.Printf("VIOLATION property=C19 replay=%s\n", p)
 		}
 	}()
-	rapid.Check(t, func(t *rapid.T) { runCase(t, rf.Ops) })
+	rapid.Check(t, func(t *rapid.T) { runCase(t, rf.Ops, &rf.Conf) })
 }
